@@ -1,11 +1,11 @@
-\* C10 generation: every history of 4 operations, one writer, code as it is
+\* C10 generation: every history of 3 operations, one writer, code as it is (terminal histories are all replayed)
 SPECIFICATION Spec
 CONSTANTS
   Mode = "hist"
   Meas = {"m1", "m2"}
   Fields = {"f1", "f2"}
   Writers = {1}
-  MaxOps = 4
+  MaxOps = 3
   MaxBatch = 1
   LogDeletes = FALSE
   ReplayOverwrites = FALSE
